@@ -110,29 +110,34 @@ class UnitResult:
 
 
 class Lemma:
-    """a fact about spec functions proved by an explicit induction schema: `obligations(st)` emits
-    base and step goals; nothing is assumed by fiat.  Usable afterwards via `instance(...)`."""
+    """a fact about spec functions proved by an explicit induction schema.  `build()` returns a list
+    of States, each holding the obligations of one case (base / step); nothing is assumed by fiat.
+    Other units use the lemma only through instances of its statement."""
 
-    def __init__(self, name, build, doc=""):
+    def __init__(self, name, build, doc="", prop_clause=None):
         self.name = name
         self.build = build
         self.doc = doc
+        self.target = "lemma:" + name
+        self.replay = None
+        self.prop_clause = prop_clause
 
     def verify(self):
-        from .state import State
         res = UnitResult(self)
-        self.target = "lemma:" + self.name
-        st = State()
         t0 = time.time()
         try:
-            self.build(st)
+            states = self.build()
         except Unsupported as e:
             res.unsupported.append(str(e))
-        for ob in st.obligations:
-            ob.fullname = "lemma:%s/%s" % (self.name, ob.name)
-            ob.unit = self
-            ob.kind = "lemma"
-            res.obligations.append(ob)
-        res.paths = 1
+            states = []
+        for st in states:
+            for ob in st.obligations:
+                ob.fullname = "lemma:%s/%s" % (self.name, ob.name)
+                ob.unit = self
+                if ob.kind == "post":
+                    ob.kind = "lemma"
+                res.obligations.append(ob)
+        res.paths = len(states)
+        res.outcomes = {"lemma-case": len(states)}
         res.gen_time = time.time() - t0
         return res
